@@ -40,32 +40,15 @@ REQUIRED = [
 
 
 def regenerate(ctx):
-    """Delete and rewrite lean/DaeVerif/C19/Gen/*.lean from /repo's current sources."""
-    os.makedirs(GEN, exist_ok=True)
-    for f in glob.glob(os.path.join(GEN, "*.lean")):
-        os.unlink(f)
-    gi = os.path.join(GEN, ".gitignore")
-    if not os.path.exists(gi):
-        open(gi, "w").write("*.lean\n")
+    """Delete and rewrite lean/DaeVerif/C19/Gen/*.lean from the repository's current sources
+    (translators/c19_regen.py = translators/c19_c/gen_c.py + translators/c19_go/main.go)."""
     gen_out = os.path.join(ctx.out, "gen")
     os.makedirs(gen_out, exist_ok=True)
-    # write into a staging dir first, then move (so that a lake build never sees half a table)
-    stage = os.path.join(gen_out, "lean")
-    os.makedirs(stage, exist_ok=True)
-    rc, out, dt = sh([sys.executable, os.path.join(VERIF, "translators", "c19_c", "gen_c.py"), REPO, VERIF, gen_out, stage],
-                     timeout=600)
-    ctx.log.write(f"$ gen_c.py [{dt:.1f}s rc={rc}]\n{out}\n")
+    rc, out, dt = sh([sys.executable, os.path.join(VERIF, "translators", "c19_regen.py"), REPO, gen_out], timeout=1500)
+    ctx.log.write(f"$ c19_regen.py [{dt:.1f}s rc={rc}]\n{out}\n")
     if rc != 0:
-        ctx.say("TRANSLATOR-FAILED c19_c (does control/kern/tproxy.c still compile with the shim headers?):\n" + out[-3000:])
+        ctx.say("TRANSLATOR-FAILED c19:\n" + out[-3000:])
         return None
-    rc, out, dt = sh(["go", "run", "main.go", REPO, gen_out, stage], cwd=os.path.join(VERIF, "translators", "c19_go"),
-                     env=go_env(), timeout=900)
-    ctx.log.write(f"$ c19_go [{dt:.1f}s rc={rc}]\n{out}\n")
-    if rc != 0:
-        ctx.say("TRANSLATOR-FAILED c19_go:\n" + out[-3000:])
-        return None
-    for f in glob.glob(os.path.join(stage, "*.lean")):
-        shutil.move(f, os.path.join(GEN, os.path.basename(f)))
     return gen_out
 
 
@@ -93,17 +76,27 @@ def diagnostics(ctx):
     ops += ["classify", "handles", "genfiles", "listencheck", "conncheck", "archreport", "wirereport"]
     ans = drv(ctx, ops, "c19diag") or []
     n = 0
+    grouped = {}   # layout obligations that fail identically on several GOARCHes are one finding
     for op, a in zip(ops, ans):
         if op in ("archreport", "wirereport"):
             ctx.cov[op] = a
             continue
         n += 1
+        m = re.match(r"BAD (\S+)@(\S+) :: (.*)$", a) if op.startswith("obl ") else None
+        if m:
+            grouped.setdefault((m.group(1), m.group(3)), []).append((m.group(2), op))
+            continue
         if a.startswith("BAD"):
             ctx.report("kernel and control plane disagree: " + a[4:],
                        {"kind": "declaration", "op": op, "detail": a,
                         "replay": "cd /verif && ./check C19 quick   # regenerates the tables from control/kern/tproxy.c and control/*.go; then: echo '%s' | lean/.lake/build/bin/c19drv" % op})
         elif not a.startswith("ok"):
             ctx.report("diagnostic op gave no verdict: %s -> %s" % (op, a), {"op": op, "answer": a})
+    for (pair, probs), where in grouped.items():
+        arches = ",".join(w[0] for w in where)
+        ctx.report(f"kernel and control plane disagree on the layout of {pair} (Go layout for {arches}): {probs}",
+                   {"kind": "layout", "pairing": pair, "go_layouts": arches, "detail": probs,
+                    "replay": "cd /verif && ./check C19 quick   # then: echo '%s' | lean/.lake/build/bin/c19drv" % where[0][1]})
     ctx.cov["table_items_checked"] = n
     return n
 
@@ -363,16 +356,24 @@ def diff(ctx, label, ops, impl, model):
         ctx.report(f"implementation differs from the model at {label}:{ln}: op `{op[:160]}` impl `{im[:200]}` model `{mo[:200]}`",
                    {"stream": label, "line": ln, "op": op, "impl": im, "model": mo,
                     "replay": "VERIF_SEED=%d ./check C19 %s" % (ctx.seed, ctx.tier)})
-    return len(read_lines(ops))
+    lines = read_lines(ops)
+    ctx.c19_distinct.update(lines)
+    return len(lines)
 
 
 def run(ctx):
+    ctx.c19_distinct = set()
     ctx.trusted += [
         "clang 14 (-target bpf) as the authority on the BPF ABI: sizeof/offsetof/enum/macro values are read back from the constant-folded LLVM IR of a probe translation unit that #includes the unmodified tproxy.c; /verif/harness/c/headers stand in for vmlinux.h/libbpf (UAPI types only)",
         "go/types + types.SizesFor(\"gc\", GOARCH) as the authority on Go layouts for the 13 release GOARCHes (validated on the host arch against unsafe/reflect in-process); encoding/binary layout = what cilium/ebpf sysenc.Marshal writes",
         "bpf2go output (bpf_bpfel.go) cannot be generated offline: the stub-build types of bpf_stub.go stand in for it (translators/fakebpf for the real-build variant)",
         "hand-written pairing table in lean/DaeVerif/C19/Model.lean (which Go type/field mirrors which C record/member; which constants are the same quantity)",
         "kernel-side key computations are tied by running tproxy.c's own get_tuples / copy_reversed_tuples / wan_outbound_is_alive / route / assign_listener natively (x86-64, little-endian) with stub helpers; big-endian behaviour is covered by the model only",
+    ]
+    ctx.assumptions = [
+        "BPF ABI = what clang 14 -target bpf computes; Go layouts = go/types gc sizes (validated on the host GOARCH against reflect/unsafe)",
+        "the bpf2go-generated types of the real build are represented by the stub-build types (bpf_stub.go)",
+        "key bytes are executed on a little-endian host only; the big-endian cases are covered by the Lean theorems (parametric in byte order), not by execution",
     ]
     t0 = time.time()
     gen_out = regenerate(ctx)
@@ -427,4 +428,6 @@ def run(ctx):
         return 2
     total += n
     return ctx.finish(rule="table items = one (pairing, GOARCH) layout obligation / constant pair / limit / map; "
-                           "ops = one real-code evaluation compared with the model", evaluations=total, distinct=total)
+                           "ops = one real-code evaluation (Go in-process / native tproxy.c) compared with the model; "
+                           "distinct_nontrivial = table items + distinct op lines",
+                      evaluations=total, distinct=n_items + len(ctx.c19_distinct))
